@@ -1,4 +1,4 @@
-(* C06 / C07 driver for the shape model (modes prog pair letnamed narrow derive), called from driver.ml *)
+(* C06 / C07 driver for the shape model (modes prog pair letnamed narrow derive c07), called from driver.ml *)
 open Model_shape
 open Sexp
 
@@ -159,5 +159,10 @@ let run mode (x : Sexp.t) : string = match mode, x with
                      | CExpr _ -> A "-") in
            go ss' st' (sh :: acc)) in
     Sexp.to_string (L (go ss [] []))
+  (* a program of Ast.v: known_c07, known_c07_wide, fragment_prog, checker accepts *)
+  | "c07", L stmts ->
+    let p = List.map stmt_of_sexp stmts in
+    let chk = (match cstmts_of p with Some cs -> (match check_stmts cs [] with Some _ -> "1" | None -> "0") | None -> "-") in
+    String.concat " " [b2s (known_c07 p); b2s (known_c07_wide p); b2s (fragment_prog [] p); chk]
   | _ -> failwith "bad case"
 
